@@ -6,6 +6,7 @@ mod bridge;
 mod cachemc;
 mod cli;
 mod formulas;
+mod history;
 mod jobs;
 mod nets;
 mod oracle;
@@ -31,6 +32,7 @@ fn replayer_for(id: &str) -> fn(&Value) -> Option<String> {
 pub fn generic_replay(case: &Value) -> Option<String> {
     match case.get("kind").and_then(|k| k.as_str()) {
         Some("sem") => sem::replay(case),
+        Some("history") => history::replay(case),
         Some("parse") => props::c05::replay(case),
         Some("tree") => props::c06::replay(case),
         Some("prep") => props::c07::replay(case),
